@@ -11,7 +11,6 @@
            (cgns_internals.c) for rank-1 transfers, of cg_array_read_as, and of the integer helpers. *)
 From Coq Require Import ZArith List Bool.
 From Flocq Require Import Core.Zaux Core.Raux IEEE754.BinarySingleNaN IEEE754.Binary IEEE754.Bits.
-From CgnsV Require Import ListX.
 Import ListNotations.
 Local Open Scope Z_scope.
 
@@ -55,8 +54,9 @@ Definition Hm64 : Prec_lt_emax 53 1024 := eq_refl.
 Definition f32_of_Z (z : Z) : binary32 := binary_normalize 24 128 Hp32 Hm32 mode_NE z 0 false.
 Definition f64_of_Z (z : Z) : binary64 := binary_normalize 53 1024 Hp64 Hm64 mode_NE z 0 false.
 
-Definition is_nan32 (u : Z) : bool := ((u / 2 ^ 23) mod 2 ^ 8 =? 255) && negb (u mod 2 ^ 23 =? 0).
-Definition is_nan64 (u : Z) : bool := ((u / 2 ^ 52) mod 2 ^ 11 =? 2047) && negb (u mod 2 ^ 52 =? 0).
+(* is the bit pattern a NaN (exponent all ones, fraction non-zero)?  decided by Flocq's decoder *)
+Definition is_nan32 (u : Z) : bool := Binary.is_nan 24 128 (b32_of_bits u).
+Definition is_nan64 (u : Z) : bool := Binary.is_nan 53 1024 (b64_of_bits u).
 Definition is_inf32 (u : Z) : bool := u mod 2 ^ 31 =? 255 * 2 ^ 23.
 Definition is_inf64 (u : Z) : bool := u mod 2 ^ 63 =? 2047 * 2 ^ 52.
 
